@@ -90,6 +90,21 @@ def panic_groups(msg, run_events):
     return g
 
 
+def finding_key(pid, fl):
+    """Canonical key of a recognised, recorded defect (KNOWN_FINDINGS.jsonl); None for anything else."""
+    ev = fl["rec"]
+    if pid == "C09" and ev.get("ev") == "msg" and ev.get("kind") == "channel_ready":
+        prior = fl["run_events"][:fl["pos_in_run"] - 1]
+        node, chan = ev["from"], ev["chan"]
+        first_write_in_flight = any(e["ev"] == "persist" and e.get("kind") == "new" and e["node"] == node and e["chan"] == chan
+                                    and e["status"] == "inprogress" for e in prior) and \
+            not any(e["ev"] == "complete" and e["node"] == node and e["chan"] == chan for e in prior)
+        last = next((e for e in reversed(prior) if e["ev"] == "deliver" and e["to"] == node), None)
+        if first_write_in_flight and last and last["kind"] == "channel_reestablish" and last["chan"] == chan:
+            return "channel_ready_on_reestablish_before_initial_persist"
+    return None
+
+
 def selftest(pid, wd, tpath):
     """Corrupt an accepted trace in ways that break each guard group; every one must be rejected."""
     with open(tpath) as f:
@@ -247,7 +262,7 @@ def run_check(pid, tier, seed, mc_cfgs, profiles, thorough_profiles, assumptions
                       "VIOLATION of " + pid if mine else "not this property"))
             if not mine:
                 continue
-            key = None
+            key = finding_key(pid, fl)
             if vlib.report_violation(pid, "%s-run%s" % (bname, fl["run"]), {
                     "property": pid, "kind": fl["kind"], "invariant": fl["inv"], "guard_groups": sorted(groups),
                     "first_unmatched_event": ev, "position_in_run": fl["pos_in_run"],
